@@ -68,7 +68,7 @@ pub fn scenarios(thorough: bool) -> Vec<Scenario> {
 
 /// Many requests of the largest coin value against one pool in one block: n x 2^120 exceeds what a 128-bit total can hold from
 /// n = 256 on.  The requests are funded by faucets (so: any network but mainnet); the engine's conservation oracle judges the seal.
-fn many_huge_requests(run: &Run, thorough: bool) {
+pub fn many_huge_requests(run: &Run, thorough: bool) {
     use crate::stf::*;
     use crate::world::*;
     use melstructs::{CoinID, Denom, PoolKey, Transaction, TxKind};
@@ -161,6 +161,52 @@ fn many_huge_requests(run: &Run, thorough: bool) {
             run.state();
             run.outcome(&format!("many-huge-deposits:{}", if node.is_some() { "path-completed" } else { "path-stopped(engine reported or real code rejected)" }));
         }
+    }
+    // withdrawals of liquidity tokens the pool never issued (faucet-minted), 2^120 each: the block's total is 255 x 2^120 (fits),
+    // exactly 2^128 (256 requests: a total that wraps would read 0 and pass every "total <= issued" test) and beyond
+    // (found missing by the operator-mutation scan: `saturating_add -> wrapping_add` in the withdrawals' total survived)
+    for n in [255usize, 256, 257] {
+        let (_w, rootn) = root(NetID::Custom02, 0, false);
+        let eng = Engine::new(run);
+        let pool = PoolKey::new(Denom::Mel, Denom::Sym);
+        let liq = pool.liq_token_denom();
+        let mut funding: Vec<Transaction> = vec![];
+        let (mut toks, mut carriers) = (vec![], vec![]);
+        let mut left = n;
+        let mut tag = 0u8;
+        while left > 0 {
+            let k = left.min(100);
+            let ft = tx_t(TxKind::Faucet, vec![], (0..k).map(|_| out_t(big, liq)).collect(), 0, vec![0x72, tag]);
+            let fc = tx_t(TxKind::Faucet, vec![], (0..k).map(|_| out_t(1, Denom::Mel)).collect(), 0, vec![0x73, tag]);
+            for i in 0..k {
+                toks.push(ft.output_coinid(i as u8));
+                carriers.push(fc.output_coinid(i as u8));
+            }
+            funding.push(ft);
+            funding.push(fc);
+            left -= k;
+            tag += 1;
+        }
+        let withdrawals: Vec<Transaction> = (0..n).map(|i| tx_t(TxKind::LiqWithdraw, vec![toks[i], carriers[i]], vec![out_t(big, liq)], 1, pool.to_bytes().to_vec())).collect();
+        let path = [
+            Action::Open,
+            Action::Batch { label: format!("{} funding faucets (liquidity tokens never issued)", funding.len()), txs: funding, expect_ok: true },
+            Action::Seal(None),
+            Action::Open,
+            Action::Batch { label: format!("{} withdrawals of 2^120 MEL/SYM liquidity tokens never issued", n), txs: withdrawals, expect_ok: true },
+            Action::Seal(None),
+            Action::Open,
+            Action::Seal(None),
+        ];
+        let mut node = Some(rootn);
+        for a in &path {
+            node = match node.as_ref().map(|x| eng.step(x, a)) {
+                Some(StepOut::Next(x)) => Some(x),
+                _ => None,
+            };
+        }
+        run.state();
+        run.outcome(&format!("many-huge-withdrawals:{}", if node.is_some() { "path-completed" } else { "path-stopped(engine reported or real code rejected)" }));
     }
     run.set("many_huge_requests", json!({"value_each": "2^120", "counts": if thorough { vec![255, 256, 257, 300, 600] } else { vec![255, 257, 300] }, "pool": "MEL/SYM", "sides": ["SYM", "MEL"]}));
 }
